@@ -1717,10 +1717,25 @@ std::string Generator::GeneratorImpl::generateCode(const AnalyserEquationAstPtr 
             code = generateCode(ast->leftChild()) + generatePiecewiseElseCode(mProfile->nanString());
         }
     } break;
-    case AnalyserEquationAst::Type::PIECE:
-        code = generatePiecewiseIfCode(generateCode(ast->rightChild()), generateCode(ast->leftChild()));
+    case AnalyserEquationAst::Type::PIECE: {
+        auto conditionCode = generateCode(ast->rightChild());
+        auto valueCode = generateCode(ast->leftChild());
 
-        break;
+        if (mProfile->hasConditionalOperator()) {
+            // A piecewise statement written with a conditional operator (e.g., "a if c else b") must be parenthesised
+            // when it is itself the value or the condition of a piece.
+
+            if ((ast->rightChild() != nullptr) && (ast->rightChild()->type() == AnalyserEquationAst::Type::PIECEWISE)) {
+                conditionCode = "(" + conditionCode + ")";
+            }
+
+            if ((ast->leftChild() != nullptr) && (ast->leftChild()->type() == AnalyserEquationAst::Type::PIECEWISE)) {
+                valueCode = "(" + valueCode + ")";
+            }
+        }
+
+        code = generatePiecewiseIfCode(conditionCode, valueCode);
+    } break;
     case AnalyserEquationAst::Type::OTHERWISE:
         code = generateCode(ast->leftChild());
 
